@@ -3,9 +3,9 @@ package props
 // C01 — the JSON encoder always emits one well-formed JSON object per entry, on one line.
 
 import (
-	"strings"
 	"bytes"
 	"fmt"
+	"strings"
 	"sync"
 	"testing"
 	"time"
